@@ -87,6 +87,12 @@ class Stmts(Calls):
         for s, v in self.ev(node.value, st):
             yield s, (Ctl('raise', v.exc) if isinstance(v, Raised) else None)
 
+    def st_Continue(self, node, st):
+        yield st, Ctl('continue', None)
+
+    def st_Break(self, node, st):
+        yield st, Ctl('break', None)
+
     def st_Return(self, node, st):
         if node.value is None:
             yield st, Ctl('return', None)
@@ -1137,7 +1143,7 @@ class Stmts(Calls):
         """sum_{k<n} val_t[idx:=k] as PS_shape(params..., n): the summand is lambda-lifted over its maximal idx-free
         subterms, so sums of the same shape in different functions (or under different bound variables) are the same
         ghost function applied to their own parameters.  Defining axioms (prefix recursion) are global."""
-        val_t = z3.simplify(val_t)
+        # (no z3.simplify here: it rewrites seq.nth into length-guarded forms, which would make equal sums look different)
         params = []
 
         def contains_idx(x, memo={}):
@@ -1192,16 +1198,57 @@ class Stmts(Calls):
             self.add_func_axiom(ps(*(args + [z3.IntVal(0)])) == 0)
             inst_shape = z3.substitute(shape0, *(list(zip(phs0, args)) + [(cidx, n - 1)]))
             self.add_func_axiom(z3.Implies(n - 1 >= 0, app == ps(*(args + [n - 1])) + inst_shape))
+            # prefix stability: a sum over the first k elements of `base + [x]` is the sum over the first k elements of
+            # `base` (k <= len(base)) when the summand reads the list only at the summation index (lemma by induction on
+            # k: both sides unfold with the same summand, since (base + [x])[i] == base[i] for i < len(base))
+            for pi_, (a_, ph_) in enumerate(zip(args, phs0)):
+                if not (z3.is_seq(a_) and z3.is_app_of(a_, z3.Z3_OP_SEQ_CONCAT)
+                        and z3.is_app_of(a_.arg(a_.num_args() - 1), z3.Z3_OP_SEQ_UNIT)):
+                    continue
+                if not self._only_indexed_at(shape0, ph_, cidx):
+                    continue
+                rest = [a_.arg(k) for k in range(a_.num_args() - 1)]
+                base = rest[0] if len(rest) == 1 else z3.Concat(*rest)
+                args_b = list(args)
+                args_b[pi_] = base
+                for k in (n, z3.simplify(n - 1)):
+                    self.add_func_axiom(z3.Implies(z3.And(k >= 0, k <= z3.Length(base)),
+                                                   ps(*(args + [k])) == ps(*(args_b + [k]))))
+                    # and the base's own unfolding at k
+                    inst_b = z3.substitute(shape0, *(list(zip(phs0, args_b)) + [(cidx, k - 1)]))
+                    self.add_func_axiom(z3.Implies(k - 1 >= 0, ps(*(args_b + [k])) == ps(*(args_b + [k - 1])) + inst_b))
         return app
 
     def has_free_bound(self, terms):
         return False
 
+    @staticmethod
+    def _only_indexed_at(shape, ph, cidx):
+        """every occurrence of the placeholder ph in shape is as the sequence operand of seq.nth at index cidx"""
+        ok = True
+        todo = [shape]
+        seen = set()
+        while todo and ok:
+            e = todo.pop()
+            if e.get_id() in seen:
+                continue
+            seen.add(e.get_id())
+            if e.eq(ph):
+                ok = False
+            elif z3.is_app_of(e, z3.Z3_OP_SEQ_NTH) and e.arg(0).eq(ph):
+                if not e.arg(1).eq(cidx):
+                    ok = False
+            elif z3.is_app(e):
+                todo.extend(e.children())
+            elif z3.is_quantifier(e):
+                ok = False
+        return ok
+
     def lifted_map(self, val_t, idx, n, sort):
         """the sequence [val_t[idx:=k] for k < n] as PM_shape(params..., n) (same lambda lifting as lifted_sum): two
         comprehensions of the same shape over the same parameters are the same term.  Sound by extensionality: length
         and every element are fixed by the facts the caller states."""
-        val_t = z3.simplify(val_t)
+        # (no z3.simplify here: it rewrites seq.nth into length-guarded forms, which would make equal sums look different)
         params = []
 
         def contains_idx(x, memo={}):
@@ -1334,8 +1381,63 @@ class Stmts(Calls):
         if ifs:
             ct = self._and([self.b(self.truth(x, s2)) for x in vs[:-1]])
             rng = z3.And(rng, self.b(ct))
+        split = self.split_appended(fname, i, nt, rng, t) if not ifs else None
+        if split is not None:
+            yield st, V(split, BOOL)
+            return
         q = z3.ForAll([i], z3.Implies(rng, t)) if fname == 'all' else z3.Exists([i], z3.And(rng, t))
         yield st, V(q, BOOL)
+
+    def split_appended(self, fname, i, nt, rng, body):
+        """a quantifier over the positions of a list that is syntactically `base + [x]` (the list right after an append),
+        whose body reads the list only at the quantified position:
+            all(P(L[j]) for j < len(L))   <=>   all(P(base[j]) for j < len(base))  and  P(x)
+        (an equivalence of sequence theory: L[j] = base[j] below len(base), L[len(base)] = x) - stated in the split form
+        so that neither a hypothesis nor a goal needs the solver to find the case distinction"""
+        found = None
+        todo = [body]
+        seen = set()
+        while todo:
+            e = todo.pop()
+            if e.get_id() in seen:
+                continue
+            seen.add(e.get_id())
+            if z3.is_app_of(e, z3.Z3_OP_SEQ_NTH) and e.arg(1).eq(i):
+                c = e.arg(0)
+                if z3.is_app_of(c, z3.Z3_OP_SEQ_CONCAT) and z3.is_app_of(c.arg(c.num_args() - 1), z3.Z3_OP_SEQ_UNIT):
+                    if found is not None and not found[0].eq(c):
+                        return None
+                    found = (c, e)
+            if z3.is_app(e):
+                todo.extend(e.children())
+            elif z3.is_quantifier(e):
+                todo.append(e.body())
+        if found is None:
+            return None
+        c, nth = found
+        if not z3.is_true(z3.simplify(nt == z3.Length(c))):
+            return None
+        rest = [c.arg(k) for k in range(c.num_args() - 1)]
+        base = rest[0] if len(rest) == 1 else z3.Concat(*rest)
+        x = c.arg(c.num_args() - 1).arg(0)
+        lb = z3.Length(base)
+        body1 = z3.substitute(body, (nth, base[i]))
+        body2 = z3.substitute(z3.substitute(body, (nth, x)), (i, lb))
+        # the list must not be read at any other position of the body through i (checked: after substitution no nth(c, .) on i)
+        def mentions(e_, memo={}):
+            k = e_.get_id()
+            if k in memo:
+                return memo[k]
+            r = (z3.is_app_of(e_, z3.Z3_OP_SEQ_NTH) and e_.arg(0).eq(c)) or (z3.is_app(e_) and any(mentions(ch) for ch in e_.children())) \
+                or (z3.is_quantifier(e_) and mentions(e_.body()))
+            memo[k] = r
+            return r
+        if mentions(body1):
+            return None
+        r1 = z3.And(i >= 0, i < lb)
+        if fname == 'all':
+            return z3.And(z3.ForAll([i], z3.Implies(r1, body1)), body2)
+        return z3.Or(z3.Exists([i], z3.And(r1, body1)), body2)
 
 
 class AnyException(Exception):
